@@ -194,5 +194,7 @@ void solver_t::more_precise(const scalar_t epsilon_factor)
 {
     assert(0.0 < epsilon_factor && epsilon_factor < 1.0);
 
-    parameter("solver::epsilon") = parameter("solver::epsilon").value<scalar_t>() * epsilon_factor;
+    // NB: keep the precision strictly positive (the domain is open at zero) even after many refinements!
+    parameter("solver::epsilon") = std::max(parameter("solver::epsilon").value<scalar_t>() * epsilon_factor,
+                                            std::numeric_limits<scalar_t>::min());
 }
